@@ -1,103 +1,116 @@
 #!/usr/bin/env python3
-"""Runs checks against the seeded breaking changes: apply seeded/<id>/patch.diff to /repo, run the checks, undo.
+"""Runs checks against the seeded breaking changes.
 
-usage: run_seeded.py [--tier quick] [--checks C01,C02] [ID_prefix ...]
-Default checks per mutation: the property it breaks, plus any listed in ALSO.  Results go to seeded/<id>/meta.json
-('detected_by') and seeded/RESULTS.json.  /repo is restored (git checkout -- .) after every mutation, also on error.
+Each seeded/<id>/patch.diff is applied in a scratch worktree of /repo HEAD and the checks import that tree through
+PYTHONPATH (same code path as running against /repo; evidence/replays are redirected with VERIF_OUT_DIR so that the
+committed evidence always comes from /repo itself).  `--in-repo` applies the patch to /repo instead (git apply, run,
+git checkout -- .).  Results: seeded/<id>/meta.json ('detected_by', 'runs') and seeded/RESULTS.json.
+
+usage: run_seeded.py [--tier quick] [--checks C01,C02] [--jobs 2] [--in-repo] [ID_prefix ...]
 """
 import json
 import os
 import subprocess
 import sys
+import threading
 import time
+from concurrent.futures import ThreadPoolExecutor
 
 ROOT = os.path.dirname(os.path.dirname(os.path.abspath(__file__)))
 ALSO = {
-    'C04': ['C05', 'C06', 'C07'], 'C05': ['C04', 'C06', 'C07'], 'C06': ['C05', 'C04', 'C09'], 'C07': ['C04', 'C05'],
-    'C09': ['C05', 'C06'], 'C01': ['C02', 'C27'], 'C02': ['C01', 'C23'], 'C23': ['C01', 'C02'], 'C25': ['C04', 'C01'],
-    'C08': ['C04'], 'C16': ['C01', 'C18'], 'C18': ['C24', 'C16'], 'C24': ['C18'], 'C26': ['C01', 'C02'],
-    'C14': ['C01'], 'C15': ['C01', 'C20'], 'C27': ['C03', 'C01'], 'C20': ['C19'], 'C17': [], 'C03': ['C11'],
+    'C01': ['C02', 'C03', 'C27'], 'C02': ['C01', 'C23'], 'C03': ['C11', 'C02'], 'C04': ['C05', 'C07'], 'C05': ['C04', 'C06'],
+    'C06': ['C05', 'C09'], 'C07': ['C04', 'C05'], 'C08': ['C04'], 'C09': ['C05', 'C06'], 'C14': ['C01'], 'C15': ['C01', 'C20'],
+    'C16': ['C01', 'C18'], 'C17': ['C04'], 'C18': ['C24', 'C16'], 'C19': ['C09'], 'C20': ['C19'], 'C23': ['C01', 'C02'],
+    'C24': ['C18'], 'C25': ['C04', 'C01'], 'C26': ['C01', 'C02'], 'C27': ['C03', 'C01'],
 }
+LOCK = threading.Lock()
 
 
-def sh(cmd, timeout=3600):
+def sh(cmd, timeout=4000):
     p = subprocess.run(cmd, shell=True, capture_output=True, text=True, timeout=timeout)
     return p.returncode, p.stdout + p.stderr
 
 
 def main():
     args = sys.argv[1:]
-    tier = 'quick'
-    only_checks = None
-    ids = []
+    tier, only_checks, ids, jobs, in_repo = 'quick', None, [], 2, False
     while args:
         a = args.pop(0)
         if a == '--tier':
             tier = args.pop(0)
-        elif a == '--in-repo':
-            pass
         elif a == '--checks':
             only_checks = args.pop(0).split(',')
+        elif a == '--jobs':
+            jobs = int(args.pop(0))
+        elif a == '--in-repo':
+            in_repo, jobs = True, 1
         else:
             ids.append(a)
     manifest = json.load(open(os.path.join(ROOT, 'MANIFEST.json')))
     available = {c['property_id'] for c in manifest['checks']}
-    # The patch is applied in a scratch worktree of /repo HEAD and the checks import it through PYTHONPATH (the same
-    # code path as running against /repo itself, without disturbing other runs); --in-repo applies it to /repo instead.
-    in_repo = '--in-repo' in sys.argv
-    target = '/repo' if in_repo else f'/tmp/seedwt-{os.getpid()}'
-    if in_repo:
-        rc, out = sh('git -C /repo status --porcelain')
-        if out.strip():
-            print('refusing: /repo has uncommitted changes:\n' + out)
-            return 2
-    else:
-        sh(f'git -C /repo worktree add -q --detach {target} HEAD')
-    envp = f'VERIF_OUT_DIR=/tmp/seedout-{os.getpid()} ' + ('' if in_repo else f'PYTHONPATH={target} ')
     results_path = os.path.join(ROOT, 'seeded', 'RESULTS.json')
     results = json.load(open(results_path)) if os.path.exists(results_path) else {}
-    for d in sorted(os.listdir(os.path.join(ROOT, 'seeded'))):
-        full = os.path.join(ROOT, 'seeded', d)
-        if not os.path.isdir(full) or (ids and not any(d.startswith(i) for i in ids)):
-            continue
-        meta = json.load(open(os.path.join(full, 'meta.json')))
-        pid = meta['property']
-        checks = only_checks or ([pid] + ALSO.get(pid, []))
-        checks = [c for c in checks if c in available]
-        rc, out = sh(f'git -C {target} apply {full}/patch.diff')
-        if rc:
-            rc, out = sh(f'git -C {target} apply -3 {full}/patch.diff')
-        if rc:
-            print(f'{d}: patch does not apply: {out[-200:]}')
-            sh(f'git -C {target} checkout -- . && git -C {target} reset -q')
-            results.setdefault(d, {})['applies'] = False
-            continue
-        try:
-            for c in checks:
-                t = time.time()
-                rc, out = sh(f'cd {ROOT} && {envp}timeout 3000 ./check {c} --tier {tier}')
-                viol = [l for l in out.splitlines() if l.startswith('VIOLATION')]
-                keys = [l.strip()[:160] for l in out.splitlines() if l.startswith('  key=')][:3]
-                verdict = 'DETECTED' if (rc == 1 and viol) else ('harness-error' if rc == 3 else ('missed' if rc == 0 else f'rc={rc}'))
-                results.setdefault(d, {})[f'{c}:{tier}'] = {'verdict': verdict, 'violations': len(viol), 'first': keys,
-                                                            'seconds': round(time.time() - t, 1)}
-                print(f'{d} {c}:{tier} -> {verdict} ({len(viol)} violations, {time.time() - t:.0f}s) {keys[:1]}')
-                sys.stdout.flush()
-        finally:
-            sh(f'git -C {target} checkout -- . && git -C {target} reset -q')
-        det = sorted(k for k, v in results.get(d, {}).items() if isinstance(v, dict) and v.get('verdict') == 'DETECTED')
-        meta['detected_by'] = det
-        meta['runs'] = {k: v.get('verdict') for k, v in results[d].items() if isinstance(v, dict)}
-        with open(os.path.join(full, 'meta.json'), 'w') as fh:
-            json.dump(meta, fh, indent=1)
-        with open(results_path, 'w') as fh:
-            json.dump(results, fh, indent=1, sort_keys=True)
-    sh(f'rm -rf /tmp/seedout-{os.getpid()}')
-    if not in_repo:
-        sh(f'git -C /repo worktree remove --force {target}')
-    rc, out = sh('git -C /repo status --porcelain')
-    if out.strip():
-        print('WARNING: /repo not clean after run:\n' + out)
+    muts = [d for d in sorted(os.listdir(os.path.join(ROOT, 'seeded')))
+            if os.path.isdir(os.path.join(ROOT, 'seeded', d)) and (not ids or any(d.startswith(i) for i in ids))]
+    head = sh('git -C /repo rev-parse --short HEAD')[1].strip()
+    if in_repo and sh('git -C /repo status --porcelain')[1].strip():
+        print('refusing: /repo has uncommitted changes')
+        return 2
+
+    def work(slot_muts):
+        slot, todo = slot_muts
+        target = '/repo' if in_repo else f'/tmp/seedwt-{os.getpid()}-{slot}'
+        outdir = f'/tmp/seedout-{os.getpid()}-{slot}'
+        if not in_repo:
+            sh(f'git -C /repo worktree add -q --detach {target} HEAD')
+        envp = f'VERIF_OUT_DIR={outdir} VERIF_PROCS={max(4, 14 // jobs)} ' + ('' if in_repo else f'PYTHONPATH={target} ')
+        for d in todo:
+            full = os.path.join(ROOT, 'seeded', d)
+            meta = json.load(open(os.path.join(full, 'meta.json')))
+            pid = meta['property']
+            checks = [c for c in (only_checks or ([pid] + ALSO.get(pid, []))) if c in available]
+            rc, out = sh(f'git -C {target} apply {full}/patch.diff')
+            if rc:
+                rc, out = sh(f'git -C {target} apply -3 {full}/patch.diff')
+            if rc:
+                sh(f'git -C {target} checkout -- . ; git -C {target} reset -q')
+                with LOCK:
+                    results.setdefault(d, {})['applies_at_' + head] = False
+                    print(f'{d}: patch no longer applies at {head}')
+                continue
+            try:
+                for c in checks:
+                    t = time.time()
+                    rc, out = sh(f'cd {ROOT} && {envp}timeout 3600 ./check {c} --tier {tier}')
+                    viol = [l for l in out.splitlines() if l.startswith('VIOLATION')]
+                    keys = [l.strip()[:200] for l in out.splitlines() if l.startswith('  key=')][:2]
+                    inc = sum(1 for l in out.splitlines() if l.startswith('INCONCLUSIVE'))
+                    verdict = 'DETECTED' if (rc == 1 and viol) else ('harness-error' if rc == 3 else ('missed' if rc == 0 else f'rc={rc}'))
+                    with LOCK:
+                        results.setdefault(d, {})[f'{c}:{tier}'] = {'verdict': verdict, 'violations': len(viol), 'first': keys,
+                                                                    'inconclusive': inc, 'seconds': round(time.time() - t, 1),
+                                                                    'repo_head': head}
+                        print(f'{d} {c}:{tier} -> {verdict} ({len(viol)} violations, {inc} inconclusive, {time.time() - t:.0f}s) {keys[:1]}')
+                        sys.stdout.flush()
+            finally:
+                sh(f'git -C {target} checkout -- . ; git -C {target} reset -q')
+            with LOCK:
+                det = sorted(k for k, v in results.get(d, {}).items() if isinstance(v, dict) and v.get('verdict') == 'DETECTED')
+                meta['detected_by'] = det
+                meta['runs'] = {k: v.get('verdict') for k, v in results[d].items() if isinstance(v, dict)}
+                with open(os.path.join(full, 'meta.json'), 'w') as fh:
+                    json.dump(meta, fh, indent=1)
+                with open(results_path, 'w') as fh:
+                    json.dump(results, fh, indent=1, sort_keys=True)
+        sh(f'rm -rf {outdir}')
+        if not in_repo:
+            sh(f'git -C /repo worktree remove --force {target}')
+    slots = [(i, muts[i::jobs]) for i in range(jobs)]
+    with ThreadPoolExecutor(jobs) as ex:
+        list(ex.map(work, slots))
+    sh('git -C /repo worktree prune')
+    if sh('git -C /repo status --porcelain')[1].strip():
+        print('WARNING: /repo not clean after run')
     return 0
 
 
